@@ -84,6 +84,16 @@ def run(ck, replay=None):
             for k in ks:
                 for rule in range(9):
                     lines.append('argsortk %d %d %d %s' % (rule, len(v), k, s))
+        # the same short vectors scaled by 2^-600 / 2^600 (exact and order preserving for every key; the checker sees the integers)
+        for e in (-600, 600):
+            for v in real:
+                if len(v) <= 3:
+                    for rule in range(9):
+                        lines.append('argsorts %d %d %d %s' % (e, rule, len(v), ' '.join(map(str, v))))
+            for v in cplx:
+                if len(v) <= 2:
+                    for rule in CPLX_RULES:
+                        lines.append('csorts %d %d %d %s' % (e, rule, len(v), ' '.join('%d %d' % z for z in v)))
         for cls, _, _ in SOLVERS:
             for a in range(9):
                 for b in range(9):
@@ -105,7 +115,11 @@ def run(ck, replay=None):
                                       'clause': 'ordering primitive returns a permutation / solvers order by the rule or reject it'}
                         lines = lines[:j]; cpp = cpp[:j]          # judge what was produced before the process died
                         break
-    if okc and okm and len(cpp) == len(lines):
+    # when the model no longer builds (the translator rejected the changed source) the obligation above has already failed; the checker
+    # binary extracted from the last tree on which it did build is then still used - only to SEARCH for a failing input: it contains the
+    # verified specification-side checker (SortKey/SortModel), which does not depend on the regenerated tables
+    searching = (not okm) and os.path.exists(mexe)
+    if okc and (okm or searching) and len(cpp) == len(lines):
         chk, idx = [], []
         for i, (l, o) in enumerate(zip(lines, cpp)):
             t = l.split()
@@ -114,6 +128,10 @@ def run(ck, replay=None):
             elif t[0] == 'argsortk':
                 k = int(t[3])
                 chk.append('chk_argsort %s %d %s | %s' % (t[1], k, ' '.join(t[4:4 + k]), o)); idx.append(i)
+            elif t[0] == 'argsorts':
+                chk.append('chk_argsort %s | %s' % (' '.join(t[2:]), o)); idx.append(i)
+            elif t[0] == 'csorts':
+                chk.append('chk_csort any %s | %s' % (' '.join(t[2:]), o)); idx.append(i)
             elif t[0] == 'csort':
                 chk.append('chk_csort any %s | %s' % (' '.join(t[1:]), o)); idx.append(i)
         disp = ['dispatch %s %d' % (nm, r) for nm in ('argsort', 'gen_select', 'gen_sort', 'herm_sort') for r in range(9)]
